@@ -225,7 +225,10 @@ def consistency(sr, u, snap, t_hint, key_base, findings, prefix='', walk=True):
                 if cnt != (1 if ce else 0):
                     findings.append(make_finding('C05', key_base + '|listing_vs_exists', '%s: exists=%s but its parent lists it %d times' % (c, ce, cnt), sr))
             for nm in foreign:
-                findings.append(make_finding('C05', key_base + '|foreign_entry', 'read_dir(%s) lists %r which no path of the universe denotes' % (v, nm), sr))
+                # an entry outside the universe (e.g. overlay bookkeeping, reported under C10): C05 only asks that the
+                # observers agree about it
+                if not foreign_exists(sr, nm):
+                    findings.append(make_finding('C05', key_base + '|foreign_entry_absent', 'read_dir(%s) lists %r, but exists() on it is false' % (v, nm), sr))
     if walk:
         pv = prefix + 'R' if prefix else 'R'
         sr.do('walk_dir %s' % pv)
@@ -242,7 +245,8 @@ def consistency(sr, u, snap, t_hint, key_base, findings, prefix='', walk=True):
                 continue
             m, foreign = match_names(ex, [it], cands)
             if foreign:
-                findings.append(make_finding('C05', key_base + '|walk_foreign', 'walk_dir yields %r which no universe path denotes' % (it,), sr))
+                if not foreign_exists(sr, it):
+                    findings.append(make_finding('C05', key_base + '|walk_foreign_absent', 'walk_dir yields %r, but exists() on it is false' % (it,), sr))
                 continue
             c = m[0]
             par = u.parent(c)
@@ -259,6 +263,21 @@ def consistency(sr, u, snap, t_hint, key_base, findings, prefix='', walk=True):
                 findings.append(make_finding('C05', key_base + '|walk_misses', 'walk_dir does not yield existing %s' % c, sr))
             if c in seen and snap[c].exists is not True:
                 findings.append(make_finding('C05', key_base + '|walk_ghost', 'walk_dir yields %s which does not exist' % c, sr))
+
+
+def foreign_exists(sr, full):
+    """exists() of a listed path that is not part of the universe (full = absolute path bytes, concrete)"""
+    full = S(full)
+    if not full.is_concrete():
+        return True
+    k = len([x for x in sr.paths if x.startswith('fx')])
+    var = 'fx%d' % k
+    root = 'R'
+    sr.do('join %s %s %s' % (var, root, hx(bytes(full))))
+    if not sr.last.ok:
+        return True
+    sr.do('exists %s' % var)
+    return sr.last.ok and sr.last.value is True
 
 
 def perm_order_hook(ex, items):
@@ -298,7 +317,11 @@ def run_step_case(prog, params):
                         return r
                     sr.do = do
                     if params.get('perm'):
-                        ex.hooks['map_order'] = perm_order_hook
+                        # one of three iteration orders of every hash map / set, chosen per path
+                        which = ex.choose(3, 'map order')
+                        if which:
+                            ex.hooks['map_order'] = (lambda ex_, items: list(reversed(items))) if which == 1 else \
+                                (lambda ex_, items: items[1:] + items[:1])
                     ctx = build_config(sr, params['cfg'], u)
                     t = ctx['setup'].build(shape, lens=params.get('lens') or [1, 0, 2])
                     key_base = '%s|%s|%s' % (params['cfg'], op, target_class(t, v))
@@ -311,8 +334,12 @@ def run_step_case(prog, params):
                         findings.append(make_finding('C13', '%s|%s:%s' % (key_base, o.tag, (o.where or '?')),
                                                      '%s on %s (%s) %ss: %s' % (op, v, target_class(t, v), o.tag, o.msg), sr,
                                                      profile='release' if release else 'dev'))
-                    changed = check_outcome(props, out, exp, op, key_base, findings, sr, t, v) if 'C01' in props else None
-                    want_snap = props & {'C01', 'C03', 'C05'}
+                    tag = params.get('tag', 'C01')
+                    changed = check_outcome(props, out, exp, op, key_base, findings, sr, t, v, prop=tag) if tag in props else None
+                    if 'C12' in props and exp.status == 'err' and exp.errclass and o.tag == 'err' and o.kind != exp.errclass:
+                        findings.append(make_finding('C12', key_base + '|misclassified:%s' % o.kind.split(':')[0],
+                                                     '%s on %s: %s must be classified as %s, got %s' % (op, v, exp.why, exp.errclass, o.kind), sr))
+                    want_snap = props & {'C01', 'C03', 'C05', 'C11'}
                     if want_snap and o.tag not in ('deadlock',):
                         if exp.status in ('ok', 'ok_or_utf8') and o.ok:
                             exp_tree, what = exp.tree, 'post_state'
@@ -320,13 +347,13 @@ def run_step_case(prog, params):
                             exp_tree, what = t, 'changed_on_failure'
                         else:
                             exp_tree, what = None, None      # contract violated or unspecified: only C03/C05 apply
-                        if 'C01' in props and exp_tree is not None:
-                            snap = check_post_state(sr, u, exp_tree, key_base, findings, what)
+                        if tag in props and exp_tree is not None:
+                            snap = check_post_state(sr, u, exp_tree, key_base, findings, what, prop=tag)
                         else:
                             snap = snapshot(sr, u)
                         if 'C03' in props and not (exp.status == 'unspecified' and v == 'R'):
                             check_wellformed(sr, u, snap, key_base, findings)
-                        if 'C05' in props:
+                        if 'C05' in props and not (exp.status == 'unspecified' and v == 'R'):
                             consistency(sr, u, snap, t, key_base, findings)
                     if 'C12' in props:
                         check_errors(sr, u, key_base, findings, start, [v])
